@@ -152,6 +152,8 @@ def run(ctx):
         if finitely_ambiguous(g):
             gs.append(g)
     stream(ctx, gs, "frac", 0)
+    stream(ctx, [M.rand_useless_grammar(ctx.rng) for _ in range(n // 2)], "frac", 3)
+    stream(ctx, [M.rand_useless_grammar(ctx.rng, boolean=True) for _ in range(n // 2)], "bool", 4)
     stream(ctx, [M.rand_grammar(ctx.rng, boolean=True, pnull=0.2, punary=0.3) for _ in range(n)], "bool", 1)
     fg = []
     tries = 0
